@@ -69,7 +69,8 @@ class EighTap:
         self.orig = np.linalg.eigh
 
         def tap(a, *args, **kw):
-            self.calls.append(np.array(a))
+            if not mm.IN_WARMUP[0]:
+                self.calls.append(np.array(a))
             return self.orig(a, *args, **kw)
         np.linalg.eigh = tap
         return self
